@@ -170,6 +170,50 @@ def enclosing_fn(lines, i):
     return None
 
 
+def expand_asserts(text, relpath, log):
+    """T4b: a statement-position `assert!(cond, fmt..)` in library code is replaced by its definition
+    `if !(cond) { panic!(fmt..) }` (single evaluation of cond, same message), so that T4 can hook it like any
+    other explicit panic. `debug_assert!` and `assert_eq!` are left alone (implicit, reported as undecided)."""
+    out = ""
+    i = 0
+    for m in re.finditer(r"(?m)^([ \t]*)assert!\(", text):
+        if m.start() < i:
+            continue
+        try:
+            end = match_brace(text, m.end() - 1)
+        except LostAnchor:
+            continue
+        inner = text[m.end():end - 1]
+        depth, cut = 0, -1
+        j = 0
+        while j < len(inner):
+            c = inner[j]
+            if c == '"':
+                j += 1
+                while j < len(inner) and inner[j] != '"':
+                    if inner[j] == "\\":
+                        j += 1
+                    j += 1
+            elif c in "([{":
+                depth += 1
+            elif c in ")]}":
+                depth -= 1
+            elif c == "," and depth == 0:
+                cut = j
+                break
+            j += 1
+        cond = inner if cut < 0 else inner[:cut]
+        rest = '"assertion failed"' if cut < 0 else inner[cut + 1:].strip()
+        tail = end
+        if text[tail:tail + 1] == ";":
+            tail += 1
+        ind = m.group(1)
+        out += text[i:m.start()] + "%sif !(%s) {\n%s    panic!(%s);\n%s}" % (ind, cond.strip(), ind, rest, ind)
+        i = tail
+        log.append({"rule": "T4b", "file": relpath, "line": text.count("\n", 0, m.start()) + 1})
+    return out + text[i:]
+
+
 def insert_panic_hooks(text, relpath, log):
     """T4: `crate::verif_rt::on_panic(kind, line);` immediately before every statement-position
     `panic!(`. The panic itself stays. kind 0 = unclassified (reported as undecided if reached)."""
@@ -188,7 +232,7 @@ def insert_panic_hooks(text, relpath, log):
                 # inside fake!: the over-call panic sits under the budget test, the argument panic under `else`
                 prevs = [l.strip() for l in lines[max(0, i - 2):i] if l.strip()]
                 p1 = prevs[-1] if prevs else ""
-                if re.search(r"prev\s*>=|>=\s*\$expected|is_err\(\)", p1):
+                if re.search(r"prev\s*>=|>=\s*\$expected|is_err\(\)|!\(prev\s*<|prev\s*<\s*\$expected", p1):
                     kind = 6
                 elif p1.startswith("} else") or p1 == "else {":
                     kind = 7
@@ -305,6 +349,10 @@ def extract(work, modules, macos=False, big_arena=False, contracts=None, extra_f
                 continue
             rel = os.path.relpath(os.path.join(root, fn), src)
             t = rd(rel)
+            if rel.startswith("verif_"):
+                continue
+            if re.search(r"(?m)^[ \t]*assert!\(", t):
+                t = expand_asserts(t, rel, log)
             if "panic!(" in t:
                 wr(rel, insert_panic_hooks(t, rel, log))
 
